@@ -268,7 +268,12 @@ func TestVerif_C06(t *testing.T) {
 				vkind, vdet = "config", err.Error()
 				return
 			}
-			sesh := client.MakeSession(remote, auth, g.dialerFor(c.Transport))
+			defer g.stopClients()
+			sesh := g.makeSession(remote, auth, c.Transport)
+			if sesh == nil {
+				vkind, vdet = "handshake-refused", "a correctly configured client cannot establish its session: its handshakes keep failing"
+				return
+			}
 			st, err := sesh.OpenStream()
 			if err != nil {
 				vkind, vdet = "open", err.Error()
